@@ -2,12 +2,12 @@
 ID = 'C17'
 LEVEL = 'exploration'
 LEVEL_TEXT = ('exploration: on the real MediaList / MediaQuery, every list over the ten known media types up to length 3 (quick) / 4 (thorough), generated media queries '
-              '(not/only, and-joined features with min-/max- prefixes and length/number/ident/colour values) alone and in lists, every token string up to 5 / 6 tokens plus the '
+              '(not/only, and-joined features with min-/max- prefixes and length/number/ident/colour values) alone and in lists, feature values of every kind (number, percentage, dimension, identifier, colour keyword / function / hash, string) in lower, upper and mixed letter case alone, inside a list and owned by @media / @import rules, every token string up to 5 / 6 tokens plus the '
               'one-token mutation neighbourhood of well-formed strings against a reference recogniser, and every edit history up to length 3 / 4 (appendMedium, deleteMedium, item '
               'assignment, mediaText assignment of the list and of a single member query) on stand-alone, @media-owned and @import-owned lists against a reference model, and '
               'every token string up to 3 / 4 tokens plus the neighbourhood of well-formed texts assigned to each query of a three-entry list whose query objects were created in eleven '
               'ways (list / rule parsers, appendMedium, item assignment, stand-alone) in raising and logging mode satisfy the statement')
-LEVEL_NOTE = ('bounded: longer lists / histories, other features and value kinds (ratios, strings), other white space and comment placements than those enumerated are not covered; '
+LEVEL_NOTE = ('bounded: longer lists / histories, other features and value kinds (ratios, calc()), other white space and comment placements than those enumerated are not covered; '
               'the serialised text is read back by an independent scanner, not by cssutils; the production parser\'s module-level list of handed-back tokens is emptied before '
               'every evaluation but never inside one: the steps of a history, the reparse and the follow-up edits run on whatever the preceding step left there (leakage between '
               'unrelated parses is the subject of C12)')
@@ -25,6 +25,7 @@ def bounded(ctx):
     c17.token_strings(ctx)
     c17.histories(ctx)
     c17.member_edits(ctx)
+    c17.value_kinds(ctx)
 
 
 # T1 (PyVC): deleteMedium and appendMedium on the ordered-set view of the list (any length, raising and logging mode): delete removes
